@@ -914,13 +914,10 @@ func runNodelets(c *harness.Ctx) harness.Result {
 		got = append(got, v)
 		c.Stat("nodelet_labels", 1)
 	}
-	if len(got) != len(want) {
-		return harness.Violation("%s: %d nodelets for %d distinct tag values\n%s", desc, len(got), len(want), out)
-	}
-	sort.Slice(got, func(i, j int) bool { return got[i].Cmp(got[j]) < 0 })
-	sort.Slice(want, func(i, j int) bool { return want[i].Cmp(want[j]) < 0 })
-	for i := range want {
-		_, wu := autoExpect(fam, want[i])
+	// values whose labels coincide share a nodelet: every label stands for at least one tag value
+	// and every tag value is stood for by a label, within display rounding
+	closeTo := func(g, w *big.Rat) bool {
+		_, wu := autoExpect(fam, w)
 		uf := rat(1, 1)
 		for _, u := range fam.units {
 			if u.canon == wu {
@@ -928,14 +925,36 @@ func runNodelets(c *harness.Ctx) harness.Result {
 			}
 		}
 		tol := new(big.Rat).Mul(rat(5001, 1000000), uf)
-		d := new(big.Rat).Sub(got[i], want[i])
-		if d.Abs(d).Cmp(tol) > 0 {
-			gf, _ := got[i].Float64()
-			wf, _ := want[i].Float64()
-			res.Verdict = harness.Violated
-			res.Detail = fmt.Sprintf("%s: the nodelet labels read back as %v bytes where the tag values are %v bytes (value x unit; display rounding allowed)\n%s", desc, gf, wf, out)
-			return res
+		d := new(big.Rat).Sub(g, w)
+		return d.Abs(d).Cmp(tol) <= 0
+	}
+	fl := func(xs []*big.Rat) []float64 {
+		var out []float64
+		for _, x := range xs {
+			f, _ := x.Float64()
+			out = append(out, f)
 		}
+		sort.Float64s(out)
+		return out
+	}
+	bad := len(got) == 0 || len(got) > len(want)
+	for _, g := range got {
+		ok := false
+		for _, w := range want {
+			ok = ok || closeTo(g, w)
+		}
+		bad = bad || !ok
+	}
+	for _, w := range want {
+		ok := false
+		for _, g := range got {
+			ok = ok || closeTo(g, w)
+		}
+		bad = bad || !ok
+	}
+	if bad {
+		res.Verdict = harness.Violated
+		res.Detail = fmt.Sprintf("%s: the nodelet labels read back as %v bytes where the tag values are %v bytes (value x unit; display rounding allowed, values with equal labels share a nodelet)\n%s", desc, fl(got), fl(want), out)
 	}
 	return res
 }
